@@ -286,6 +286,9 @@ class TriangleBoundary(BoundaryDomain):
         self._add_local_normal_vector(normals, bary_x, normal_dir_3, 0.0)
         self._add_local_normal_vector(normals, (bary_x + bary_y), normal_dir_2, 1.0)
         self._add_local_normal_vector(normals, bary_y, normal_dir_1, 0.0)
+        # normals above assume counter clockwise corners, flip them otherwise:
+        det = -dir_1[:, :1] * dir_3[:, 1:] + dir_1[:, 1:] * dir_3[:, :1]
+        normals = normals * torch.sign(det)
         # scale normal vectors if there where in a corner:
         return torch.divide(normals, torch.linalg.norm(normals, dim=1).reshape(-1, 1))
 
